@@ -5,10 +5,13 @@
 //! second time it is called in a process (rayon's documented contract).
 //! Deliberately different: no threads. Nothing about interleavings is claimed anywhere.
 
-static mut GLOBAL_BUILT: bool = false;
+// one static struct with a non-zero magic field (see harness/support.rs: plain zero-initialised statics were
+// observed to alias with promoted constants under Kani 0.68)
+struct Pool { magic: u64, built: bool }
+static mut POOL: Pool = Pool { magic: 0x9001_c0de_77aa_1234, built: false };
 /// Harness-side: reset / inspect the "process-global pool" flag
-pub fn model_pool_reset() { unsafe { GLOBAL_BUILT = false; } }
-pub fn model_pool_built() -> bool { unsafe { GLOBAL_BUILT } }
+pub fn model_pool_reset() { unsafe { POOL.built = false; } }
+pub fn model_pool_built() -> bool { unsafe { POOL.magic == 0x9001_c0de_77aa_1234 && POOL.built } }
 
 #[derive(Debug)]
 pub struct ThreadPoolBuildError;
@@ -19,7 +22,7 @@ impl ThreadPoolBuilder {
     pub fn new() -> Self { Self { n: 0 } }
     pub fn num_threads(mut self, n: usize) -> Self { self.n = n; self }
     pub fn build_global(self) -> Result<(), ThreadPoolBuildError> {
-        unsafe { if GLOBAL_BUILT { Err(ThreadPoolBuildError) } else { GLOBAL_BUILT = true; Ok(()) } }
+        unsafe { if POOL.built { Err(ThreadPoolBuildError) } else { POOL.built = true; Ok(()) } }
     }
 }
 
